@@ -290,6 +290,7 @@ def handle : Handler := fun op args impl =>
   | "detdistmulti", _ => some (sameVerdict impl "compute-distance-on-several-alignments-differs-from-the-library-call-on-each")
   | "detannot", _ => some (sameVerdict impl "annotation-file-compressed-or-on-stdin-differs-from-plain-file")
   | "detgz", _ => some (sameVerdict impl "file-written-compressed-differs-from-plain")
+  | "detunion", _ => some (sameVerdict impl "rows-kept-with-several-expressions-are-not-the-union-of-the-rows-kept-with-each")
   | "detmulti", _ => some (sameVerdict impl "multi-alignment-input-differs-from-alignments-one-by-one")
   | "cli_seeded", stdin :: argv => do
     let rows := parseFasta (stdin.splitOn "|")
